@@ -103,6 +103,7 @@ type SpecFunc struct {
 	Result string
 	Body   SExpr // nil => uninterpreted
 	Pkg    string
+	Opaque bool // declared as a function symbol with a definitional axiom instead of being macro-expanded
 }
 
 type Lemma struct {
@@ -357,6 +358,11 @@ func splitWord(s string) (string, string) {
 
 func parseSpecFunc(s string) (*SpecFunc, error) {
 	kw, rest := splitWord(s)
+	opaque := false
+	if kw == "opaque" {
+		opaque = true
+		kw, rest = splitWord(rest)
+	}
 	if kw != "func" {
 		return nil, fmt.Errorf("expected 'spec func'")
 	}
@@ -368,7 +374,7 @@ func parseSpecFunc(s string) (*SpecFunc, error) {
 	if cl < op {
 		return nil, fmt.Errorf("spec func: missing )")
 	}
-	sf := &SpecFunc{Name: strings.TrimSpace(rest[:op])}
+	sf := &SpecFunc{Name: strings.TrimSpace(rest[:op]), Opaque: opaque}
 	params := strings.TrimSpace(rest[op+1 : cl])
 	if params != "" {
 		for _, p := range strings.Split(params, ",") {
